@@ -119,6 +119,33 @@ impl<T: Clone> DerefMut for CachedRwLockWriteGuard<'_, T> {
     }
 }
 
+/// Verification hook: a `CachedRwLock<Vec<usize>>` with value semantics.
+#[cfg(nexosim_verif)]
+pub mod verif {
+    use super::CachedRwLock;
+
+    #[derive(Clone)]
+    pub struct VCachedRwLock(CachedRwLock<Vec<usize>>);
+
+    impl VCachedRwLock {
+        pub fn new() -> Self {
+            Self(CachedRwLock::new(Vec::new()))
+        }
+        /// `write()` followed by a push on the shared value.
+        pub fn write_push(&mut self, v: usize) {
+            self.0.write().unwrap().push(v);
+        }
+        /// `write_scratchpad()`: the value a send through this clone uses.
+        pub fn read(&mut self) -> Vec<usize> {
+            self.0.write_scratchpad().unwrap().clone()
+        }
+        /// `read_unsync()`: the cached value, without synchronisation.
+        pub fn cached(&self) -> Vec<usize> {
+            self.0.read_unsync().clone()
+        }
+    }
+}
+
 #[cfg(all(test, nexosim_loom))]
 mod tests {
     use super::*;
